@@ -5,9 +5,11 @@ import warnings
 
 from ..runner import Report, kernel_phase
 from ..solverprop import Campaign, loss_of
-from ..solverworld import VALID_BASE
+from ..solverworld import VALID_BASE, grad_formula
 
 PID = 'C04'
+GRAD_THEOREMS = ['loss_is_user_plus_additional', 'plain_step_sees_sum_of_batch_gradients', 'gradTrace_closureEvals',
+                 'closure_step_sees_last_evaluation_gradient', 'validEpoch_leaves_gradients']
 THEOREMS = ['trainEpoch_draws', 'validEpoch_draws', 'train_epoch_plain', 'mean_exact', 'train_epoch_closure_steps',
             'validEpoch_params_unchanged', 'valid_epoch_loss', 'tview_trainEpoch', 'tview_validEpoch', 'tview_epoch',
             'params_trajectory_independent_of_validation', 'bundle_selects', 'bundle_rejects_out_of_range',
@@ -23,6 +25,20 @@ def evaluate(camp):
         opt = p0[2]
         theta = theta0
         for call, f in enumerate(fits):
+            # the gradient present at every optimiser step: plain = SUM over the epoch's batches of the batch gradients (one
+            # zero_grad before them, no rescaling); closure = gradient of the last closure evaluation of that batch alone
+            want_grads, acc = [], 0
+            for e in [e for evs in f['events'] for e in evs] + f['trailing']:
+                if e == 'Z':
+                    acc = 0
+                elif e.startswith('L') and e.split(':')[2] == '1':
+                    lid, th, tr, idx = e[1:].split(':')
+                    acc += grad_formula(int(lid), int(th), True, int(idx))
+                elif e.startswith('S'):
+                    want_grads.append(acc)
+            if f.get('grads') is not None and f['grads'] != want_grads:
+                bad.append(dict(script=lines, kw=kw, fit_call=call, violated='gradient seen by optimizer.step() is not the gradient accumulated '
+                                'over the batches since the last zero_grad', seen=f['grads'], accumulated=want_grads))
             for j, (d, evs) in enumerate(zip(f['epochs'], f['events'])):
                 c = dict(script=lines, kw=kw, fit_call=call, epoch=j + 1)
                 d1 = [e for e in evs if e.startswith('D1')]
@@ -179,6 +195,8 @@ def routing_checks(seed):
 def check(tier, seed):
     rep = Report(PID, tier, seed)
     ok, hits = kernel_phase(rep, 'NdeVerif.Proofs.C04', 'NdeVerif.C04', THEOREMS)
+    ok2, _ = kernel_phase(rep, 'NdeVerif.Proofs.C04Grad', 'NdeVerif.C04', GRAD_THEOREMS, tag='C04grad')
+    ok = ok and ok2
     if hits:
         print('forbidden tokens:', hits)
         rep.finish()
@@ -190,8 +208,11 @@ def check(tier, seed):
     bad = evaluate(camp) + [dict(routing=b) for b in routing_checks(seed)]
     rep.coverage.update(camp.coverage())
     rep.samples = [dict(script=l, solver=kw) for l, kw in camp.scripts[:3]]
-    rep.assumptions = ['optimiser arithmetic and gradient accumulation are oracles: scripted integer optimisers stand in for SGD/Adam/LBFGS '
-                       '(partial: that the gradients present at step() are the sum over the epoch\'s batches is torch behaviour, not modelled)',
+    rep.assumptions = ['optimiser arithmetic is an oracle: scripted integer optimisers stand in for SGD/Adam/LBFGS; the gradient they are handed is '
+                       'modelled (gradTrace over the event log: zero_grad clears, each training closure evaluation adds the batch gradient, '
+                       'validation adds nothing) and compared with the .grad the scripted optimisers actually see at step(); that loss.backward() '
+                       'adds d loss/d theta to .grad is torch behaviour',
+                       'additional_loss is modelled (Cfg.addl, added to loss_fn in both phases) and scripted in half of the campaign',
                        'conditions are NoCondition in the campaign (the enforce formulas themselves are C01/C02/C10-C12); fixed-arity '
                        'truncation, loss dispatch and bundle routing are observed on the real code every run']
     for b in bad[:3]:
